@@ -102,17 +102,26 @@ def classify(path, folder):
     return None
 
 
+RIGHTS_ALL = "[all]\nuser: .*\ncollection: .*\npermissions: RrWw\n"
+
+
 # ---------------------------------------------------------------------------------------------- one driver run
 class Run:
-    def __init__(self, name, stype, adversary, straced, reqs, hook="true", watch_hook_group=False):
+    def __init__(self, name, stype, adversary, straced, reqs, hook="true", watch_hook_group=False, rights="owner_only"):
         self.name, self.stype, self.adversary, self.straced, self.reqs = name, stype, adversary, straced, reqs
-        self.hook, self.watch_hook_group = hook, watch_hook_group
+        self.hook, self.watch_hook_group, self.rights = hook, watch_hook_group, rights
         self.results = None
         self.error = None
         self.events = None
 
     def conf(self):
-        return {"auth": {"type": "none"}, "rights": {"type": "owner_only"},
+        if self.rights == "all":
+            # "everything everywhere": collection-level AND item-level read/write on every path for everybody, so that
+            # the permission-dependent branches (e.g. PUT: whole collection or item?) are decided by the storage only
+            rights = {"type": "from_file", "file": os.path.join(os.path.dirname(getattr(self, "folder", "/nonexistent/x")), "rights")}
+        else:
+            rights = {"type": self.rights}
+        return {"auth": {"type": "none"}, "rights": rights,
                 "storage": {"type": self.stype, "hook": self.hook.replace("@FOLDER@", getattr(self, "folder", "@FOLDER@")),
                             "predefined_collections": json.dumps(x_c10.PREDEFINED)}}
 
@@ -120,6 +129,8 @@ class Run:
         d = os.path.join(base, self.name)
         self.folder = os.path.join(d, "store")
         os.makedirs(self.folder)
+        with open(os.path.join(d, "rights"), "w") as f:
+            f.write(RIGHTS_ALL)
         spec, outp, tr = os.path.join(d, "spec.json"), os.path.join(d, "out.json"), os.path.join(d, "trace.txt")
         json.dump(dict(folder=self.folder, conf=self.conf(), adversary=self.adversary, requests=self.reqs,
                        watch_hook_group=self.watch_hook_group), open(spec, "w"))
@@ -284,7 +295,7 @@ def run(ctx):
                 "free-busy and sync with early unlock, every method as the first request of a fresh user with "
                 "[storage] predefined_collections configured, anonymous) run against the real server for storage type "
                 "multifilesystem / multifilesystem_nolock, normally or with an adversary thread taking the lock exclusively at "
-                "every Release point; distinct by (storage type, adversary, method, status, api event stream); non-trivial = "
+                "every Release point; under the rights policies owner_only / authenticated / from_file RrWw-on-every-path; distinct by (storage type, adversary, rights, method, status, api event stream); non-trivial = "
                 "the request took the storage lock at least once")
     ctx.assumptions += [
         "skeleton semantics [exec] (Model/LockDiscipline.v) is the model of Python control flow and of lock.py's acquire_lock; "
@@ -327,20 +338,23 @@ def run(ctx):
     n = ctx.n
     setup = x_c10.setup_requests()
     plan = [
-        ("fs", "multifilesystem", False, True, n(320, 9000), False),
-        ("fs_adv", "multifilesystem", True, True, n(220, 6000), False),
-        ("nolock", "multifilesystem_nolock", False, True, n(160, 4000), False),
-        ("nolock_adv", "multifilesystem_nolock", True, False, n(220, 6000), False),
+        ("fs", "multifilesystem", False, True, n(300, 9000), "owner_only"),
+        ("fs_adv", "multifilesystem", True, True, n(200, 6000), "all"),
+        ("nolock", "multifilesystem_nolock", False, True, n(150, 4000), "authenticated"),
+        ("nolock_adv", "multifilesystem_nolock", True, False, n(200, 6000), "owner_only"),
+        ("fs_all", "multifilesystem", False, True, n(150, 4000), "all"),
+        ("fs_auth_adv", "multifilesystem", True, False, n(120, 3000), "authenticated"),
     ]
+    seeds += [rng.randrange(2 ** 31) for _ in range(len(plan) - len(seeds))]
     runs = []
-    for (name, stype, adv, straced, count, ro), seed in zip(plan, seeds):
+    for (name, stype, adv, straced, count, rights), seed in zip(plan, seeds):
         r2 = _random.Random(seed)
-        reqs = [dict(x) for x in setup] + x_c10.first_login_block(name.replace("_", "")) + x_c10.gen_requests(r2, count, read_only=ro)
+        reqs = [dict(x) for x in setup] + x_c10.first_login_block(name.replace("_", "")) + x_c10.gen_requests(r2, count)
         reqs += x_c10.hostile_block()
         if adv:
             # every read request kind at least once: appended deterministic block
             reqs += fixed_block()
-        runs.append(Run(name, stype, adv, straced, reqs))
+        runs.append(Run(name, stype, adv, straced, reqs, rights=rights))
     # a hook that leaves a background job behind (like "git push &"): lock.py must have killed the hook's process
     # group before the exclusive lock is released, so nothing of it may touch the folder afterwards
     L = "u:"
@@ -400,11 +414,12 @@ def evaluate(ctx, runs, base, model_ok, failing_methods):
                 continue
             api = res["api"]
             locked = any(e[0] == "Acquire" for e in api)
-            key = (run.stype, run.adversary, rq["method"], res["status"], json.dumps(api))
+            key = (run.stype, run.adversary, run.rights, rq["method"], res["status"], json.dumps(api))
             ctx.case(key, nontrivial=locked,
                      sample=dict(run=run.name, method=rq["method"], path=rq["path"], status=res["status"], api=api)
                      if rq.get("rkind") == "freebusy" or (i % 37 == 5) else None)
             ctx.count("run:%s" % run.name)
+            ctx.count("rights:%s" % run.rights)
             ctx.count("method:%s" % rq["method"])
             ctx.count("status:%s" % res["status"])
             if rq.get("rkind"):
@@ -504,7 +519,7 @@ def replay_of(run, i, **kw):
     """A self-contained replay: the request sequence up to and including request i of that run."""
     upto = run.reqs[:i + 1] if i >= 0 else run.reqs
     # keep the set-up and the failing request; drop the unrelated middle when the failing request does not depend on it
-    return dict(storage_type=run.stype, adversary=run.adversary, conf=run.conf(), hook=run.hook, watch_hook_group=run.watch_hook_group, failing_request=run.reqs[i] if i >= 0 else None,
+    return dict(storage_type=run.stype, adversary=run.adversary, conf=run.conf(), hook=run.hook, watch_hook_group=run.watch_hook_group, rights=run.rights, failing_request=run.reqs[i] if i >= 0 else None,
                 requests=upto, note="./check C10 --replay <this file> re-runs the sequence through vlib/drivers/c10_driver.py "
                 "and prints the monitors' verdict for the last request", **kw)
 
@@ -517,7 +532,7 @@ def shrink(rp, base):
     def fails(reqs):
         counter[0] += 1
         run = Run("shrink%d" % counter[0], rp["storage_type"], rp["adversary"], False, reqs, hook=rp.get("hook", "true"),
-                  watch_hook_group=rp.get("watch_hook_group", False))
+                  watch_hook_group=rp.get("watch_hook_group", False), rights=rp.get("rights", "owner_only"))
         run.execute(base, 300)
         if run.error:
             return None
@@ -570,7 +585,7 @@ def replay(ctx, path):
     base = tempfile.mkdtemp(prefix="rv-c10-replay-")
     try:
         run = Run("replay", rp["storage_type"], rp["adversary"], False, rp["requests"], hook=rp.get("hook", "true"),
-                  watch_hook_group=rp.get("watch_hook_group", False))
+                  watch_hook_group=rp.get("watch_hook_group", False), rights=rp.get("rights", "owner_only"))
         run.execute(base, 600)
         if run.error:
             print(run.error)
